@@ -133,6 +133,9 @@ def c09_cases(info, api):
         s1, fwd = api.post("GetExecutionHistory", {"executionArn": arn})
         s2, rev = api.post("GetExecutionHistory", {"executionArn": arn, "reverseOrder": True})
         s3, desc = api.post("DescribeExecution", {"executionArn": arn})
+        # reading does not change what is stored: the same two requests again
+        s4, fwd2 = api.post("GetExecutionHistory", {"executionArn": arn})
+        s5, rev2 = api.post("GetExecutionHistory", {"executionArn": arn, "reverseOrder": True})
         fe = fwd.get("events", []) if s1 == 200 and isinstance(fwd, dict) else []
         re_ = rev.get("events", []) if s2 == 200 and isinstance(rev, dict) else []
         if s3 == 200 and isinstance(desc, dict):
@@ -150,7 +153,8 @@ def c09_cases(info, api):
                 % ("; ".join(hevent_triple(info.conv, e, intern) for e in fe), "; ".join(hevent_triple(info.conv, e, intern) for e in re_),
                    inp, st, res, b(not has_fanout(info.definition))))
         out.append(term)
-        raws.append({"executionArn": arn, "history": fe, "describe": desc if s3 == 200 else [s3, desc], "statuses": [s1, s2, s3]})
+        raws.append({"executionArn": arn, "history": fe, "describe": desc if s3 == 200 else [s3, desc], "statuses": [s1, s2, s3],
+                     "reads_stable": (s4, fwd2) == (s1, fwd) and (s5, rev2) == (s2, rev), "second_forward_read": (fwd2.get("events") if isinstance(fwd2, dict) else fwd2)})
     return out, raws
 
 
